@@ -5,7 +5,7 @@ os.chdir(os.path.dirname(os.path.dirname(os.path.abspath(__file__))))
 subprocess.run(["python3", "tools/seed_table.py"], stdout=subprocess.DEVNULL)
 table = open("seeded/TABLE.md").read()
 rows = [l for l in table.splitlines()[2:] if l.startswith("|")]
-caught_input = sum("failing input" in r for r in rows)
+caught_input = sum(("failing input (" in r) for r in rows)
 caught_noinput = sum("no failing input found" in r for r in rows)
 missed = sum("MISSED" in r for r in rows)
 notrun = sum(("not run" in r) or ("did not complete" in r) for r in rows)
